@@ -34,3 +34,46 @@ def install_time64_summary(E):
     E.intercepts["example.com/scion-time/net/ntp.Time64FromTime"] = t64
     from . import stubs
     stubs.doc("ntp.Time64FromTime (summary)", t64.__doc__ or install_time64_summary.__doc__)
+
+
+def install_fp_duration_summaries(E):
+    """timemath.Duration(x float64) and (time.Duration).Seconds() as uninterpreted functions with the
+    sound facts: both are monotone (checked pairwise on the applications that occur), preserve sign and
+    zero, Seconds is finite and bounded by 9.3e9, Duration(x) >= 1e9 for x >= 1 (x < 9.2e9)."""
+    if E.cfg.get("exact_duration"):
+        return
+    conv = z3.Function("dur_of_seconds", F64, BV64)
+    secs = z3.Function("seconds_of_dur", BV64, F64)
+    capps, sapps = [], []
+    zero = z3.FPVal(0.0, F64)
+
+    def duration(E, name, args, ins):
+        x = args[0]
+        r = conv(x)
+        ok = z3.And(z3.Not(z3.fpIsNaN(x)), z3.fpLT(z3.fpAbs(x), z3.FPVal(9.2e9, F64)))
+        E.assume_global(z3.Implies(z3.And(ok, z3.fpGEQ(x, zero)), r >= 0), "Duration: sign")
+        E.assume_global(z3.Implies(z3.And(ok, z3.fpLEQ(x, zero)), r <= 0), "Duration: sign")
+        E.assume_global(z3.Implies(z3.And(ok, z3.fpGEQ(x, z3.FPVal(1.0, F64))), r >= 1000000000), "Duration(x) >= 1s for x >= 1")
+        for (x2, r2) in capps:
+            E.assume_global(z3.Implies(z3.And(ok, z3.fpLEQ(x, x2)), r <= r2), "Duration: monotone")
+            E.assume_global(z3.Implies(z3.And(ok, z3.fpLEQ(x2, x)), r2 <= r), "Duration: monotone")
+        capps.append((x, r))
+        return r
+    E.intercepts["example.com/scion-time/base/timemath.Duration"] = duration
+
+    def seconds(E, name, args, ins):
+        d = args[0]
+        r = secs(d)
+        E.assume_global(z3.And(z3.Not(z3.fpIsNaN(r)), z3.fpLEQ(z3.fpAbs(r), z3.FPVal(9.3e9, F64))), "Seconds: finite, bounded")
+        E.assume_global(z3.Implies(z3.And(d <= bv(1 << 62), d >= bv(-(1 << 62))), z3.fpLEQ(z3.fpAbs(r), z3.FPVal(4.7e9, F64))), "Seconds: |d| <= 2^62 ns => |seconds| <= 4.7e9")
+        E.assume_global(z3.Implies(d >= 0, z3.fpGEQ(r, zero)), "Seconds: sign")
+        E.assume_global(z3.Implies(d <= 0, z3.fpLEQ(r, zero)), "Seconds: sign")
+        E.assume_global(z3.Implies(d > 0, z3.fpGT(r, zero)), "Seconds: strictly positive for positive durations")
+        for (d2, r2) in sapps:
+            E.assume_global(z3.Implies(d <= d2, z3.fpLEQ(r, r2)), "Seconds: monotone")
+            E.assume_global(z3.Implies(d2 <= d, z3.fpLEQ(r2, r)), "Seconds: monotone")
+        sapps.append((d, r))
+        return r
+    E.intercepts["(time.Duration).Seconds"] = seconds
+    from . import stubs
+    stubs.doc("timemath.Duration / Duration.Seconds (summary)", install_fp_duration_summaries.__doc__)
